@@ -23,6 +23,8 @@ class CaptureJson:
 
     def loads(self, s):
         import json
+        if isinstance(s, str) and s.startswith('@@JSON-DOC-') and s.endswith('@@'):
+            return self.docs[int(s[11:-2])][0]      # a document this stub rendered: well-formed by construction
         return json.loads(s)
 
 
